@@ -146,15 +146,30 @@ thread_local! {
     pub static PROBES_RUN: std::cell::Cell<u64> = std::cell::Cell::new(0);
 }
 
+/// Build the goals of a conjunction. A goal that is written twice in a row (same AST, same
+/// environment, no simulated leaf inside) is built once and the *same goal object* is used twice,
+/// as in `let g = ...; proto_vulcan!([g, g])`: goal objects are reference-counted and may be
+/// solved any number of times, so this must behave exactly like two separately built copies.
+pub fn build_seq<K: GK>(gs: &[G], env: &Env, cx: &Ctx) -> Vec<K> {
+    let mut out: Vec<K> = Vec::with_capacity(gs.len());
+    for (i, g) in gs.iter().enumerate() {
+        if i > 0 && gs[i - 1] == *g && !g.any(|x| matches!(x, G::Leaf(_))) {
+            let prev = out[i - 1].clone();
+            out.push(prev);
+        } else {
+            out.push(build::<K>(g, env, cx));
+        }
+    }
+    out
+}
+
 pub fn build_conj<K: GK>(gs: &[G], env: &Env, cx: &Ctx) -> K {
-    let goals: Vec<K> = gs.iter().map(|g| build::<K>(g, env, cx)).collect();
+    let goals: Vec<K> = build_seq::<K>(gs, env, cx);
     GoalCast::cast_into(InferredConj::<SimUser, Eng, K>::from_array(&goals))
 }
 
 fn clause_lists<K: GK>(cs: &[Vec<G>], env: &Env, cx: &Ctx) -> Vec<Vec<K>> {
-    cs.iter()
-        .map(|c| c.iter().map(|g| build::<K>(g, env, cx)).collect())
-        .collect()
+    cs.iter().map(|c| build_seq::<K>(c, env, cx)).collect()
 }
 
 fn fngoal<K: GK>(f: Box<dyn Fn(&PSolver, PState) -> PStream>) -> K {
@@ -258,20 +273,20 @@ pub fn build<K: GK>(g: &G, env: &Env, cx: &Ctx) -> K {
             K::from_bfs(proto_vulcan::operator::condu::condu(OperatorParam::new(&refs)))
         }
         G::Onceo(gs) => {
-            let lists: Vec<Vec<PGoal>> = group(gs.iter().map(|g| build::<PGoal>(g, env, cx)).collect());
+            let lists: Vec<Vec<PGoal>> = group(build_seq::<PGoal>(gs, env, cx));
             let refs: Vec<&[PGoal]> = lists.iter().map(|v| v.as_slice()).collect();
             K::from_bfs(proto_vulcan::operator::onceo::onceo(OperatorParam::new(&refs)))
         }
         G::Dfs(gs) => {
             let lists: Vec<Vec<PDfsGoal>> =
-                group(gs.iter().map(|g| build::<PDfsGoal>(g, env, cx)).collect());
+                group(build_seq::<PDfsGoal>(gs, env, cx));
             let refs: Vec<&[PDfsGoal]> = lists.iter().map(|v| v.as_slice()).collect();
             GoalCast::cast_into(proto_vulcan::operator::dfs::dfs::<SimUser, Eng, K>(
                 OperatorParam::new(&refs),
             ))
         }
         G::Anyo(gs) => {
-            let lists: Vec<Vec<PGoal>> = group(gs.iter().map(|g| build::<PGoal>(g, env, cx)).collect());
+            let lists: Vec<Vec<PGoal>> = group(build_seq::<PGoal>(gs, env, cx));
             let refs: Vec<&[PGoal]> = lists.iter().map(|v| v.as_slice()).collect();
             K::from_bfs(proto_vulcan::operator::anyo::anyo(OperatorParam::new(&refs)))
         }
@@ -284,7 +299,7 @@ pub fn build<K: GK>(g: &G, env: &Env, cx: &Ctx) -> K {
             let f: Box<dyn Fn(PTerm) -> K> = Box::new(move |xt: PTerm| {
                 let mut env3 = env2.clone();
                 env_set(&mut env3, x, xt);
-                let lists: Vec<Vec<K>> = body.iter().map(|g| vec![build::<K>(g, &env3, &cx2)]).collect();
+                let lists: Vec<Vec<K>> = build_seq::<K>(&body, &env3, &cx2).into_iter().map(|g| vec![g]).collect();
                 let refs: Vec<&[K]> = lists.iter().map(|v| v.as_slice()).collect();
                 GoalCast::cast_into(InferredConj::<SimUser, Eng, K>::from_conjunctions(&refs))
             });
@@ -302,7 +317,7 @@ pub fn build<K: GK>(g: &G, env: &Env, cx: &Ctx) -> K {
                 for (v, t) in vars2.iter().zip(projected.iter()) {
                     env_set(&mut env3, *v, t.clone());
                 }
-                let lists: Vec<Vec<K>> = body2.iter().map(|g| vec![build::<K>(g, &env3, &cx2)]).collect();
+                let lists: Vec<Vec<K>> = build_seq::<K>(&body2, &env3, &cx2).into_iter().map(|g| vec![g]).collect();
                 let refs: Vec<&[K]> = lists.iter().map(|v| v.as_slice()).collect();
                 GoalCast::cast_into(InferredConj::<SimUser, Eng, K>::from_conjunctions(&refs))
             });
@@ -432,7 +447,7 @@ pub fn build_query_parts(p: &Program) -> (Vec<PTerm>, PGoal) {
         defs: Rc::new(p.defs.clone()),
         qvars: Rc::new(qvars.clone()),
     };
-    let body: Vec<PGoal> = p.body.iter().map(|g| build::<PGoal>(g, &env, &cx)).collect();
+    let body: Vec<PGoal> = build_seq::<PGoal>(&p.body, &env, &cx);
     let goal = wrap_query_goal(&qvars, body);
     (qvars, goal)
 }
